@@ -38,6 +38,10 @@ CHECKS = {
    technique="bounded symbolic execution of the real Go position code (go/ssa -> SMT bit-vectors) on symbolic file contents, offsets and Pos values; z3 decides each assertion against a newline-counting oracle; counterexamples replayed natively",
    text="token.FileSet.AddFile, File.SetLinesForContent / AddLine, File.Pos/Offset/Line/LineStart, FileSet.Position/PositionFor/File (searchFiles, searchInts, unpack) run symbolically for two files of 0..4 and 0..2 fully symbolic bytes and a symbolic offset in either file: file name, offset, line and column equal the values obtained by counting newlines and bytes. FileSet.Write into an in-memory serializedFileSet and FileSet.Read into a fresh FileSet: every Pos value in [0, Base+1] (symbolic) maps to the same Position, adjusted and unadjusted, and Base is preserved.",
    note="Trusted: the counting oracle in the harness, go/ssa, the executor (validated per run by native replay of path models), z3 5.1.0; mutexes are no-ops. Outside the claim: the JSON text itself (encoding/json is reflection-based and not modelled), //line directives (AddLineInfo), files longer than 4 bytes, and positions in run-time panic messages of compiled programs (whole-compiler path). Two go/token conventions are listed as known findings (empty file, end position after a final newline)."),
+ "C22": dict(engine=E1, category="model_checking", design="DESIGN.md#C22",
+   technique="bounded symbolic execution of the real Go diff code (go/ssa -> SMT bit-vectors; LCS, rune conversion, Apply/validate, sort) on two symbolic texts; z3 decides each assertion; counterexamples replayed natively",
+   text="diff.Strings and diff.Bytes (diffASCII, diffRunes, lcs.DiffBytes/DiffRunes with the two-sided LCS search, rune/byte offset conversion) run symbolically on two texts of 0..3 (quick) / 0..4 (thorough) fully symbolic bytes each, assumed valid UTF-8 (ASCII, multi-byte, mixed): the computed edit list is sorted, in bounds, non-overlapping, falls on rune boundaries of the first text, is accepted by diff.Apply, and applying it yields exactly the second text. diff.Apply/validate additionally on two arbitrary edits with symbolic bounds: accepted iff in bounds and disjoint after sorting, and the result is the reference splice.",
+   note="Trusted: go/ssa, the executor (validated per run by native replay of path models), z3 5.1.0; sort.Slice is modelled as a stable in-place insertion sort driven by the caller's less closure. Texts longer than 4 bytes, invalid UTF-8 inputs and unified-diff rendering (ToUnified, lineEdits) are outside the bound."),
  # ---CHECKS-END---
 }
 NA = {
